@@ -42,6 +42,8 @@ def term(fn, n, env, depth=0):
         return str(o['cv'])
     if c == 'CXXThisExpr':
         return env.get('this', 'this')
+    if c == 'LambdaExpr':
+        return '<lambda>'
     if c == 'MemberExpr':
         d = fn.decl(n)
         b = term(fn, fn.kids(n)[0], env, depth + 1) if fn.kids(n) else '?'
